@@ -44,6 +44,7 @@ _BUILTINS = set(dir(builtins))
 ERASED: dict[str, list[str]] = {}          # record class -> field names
 RETURNS: dict[str, str] = {}               # function name (unique in the program) -> erased record class it returns
 INFO: dict = {}
+PULLED: set = set()                         # (file, name) of helper copies pass X put into a file
 
 
 # ------------------------------------------------------------------------------------------------ module namespaces
@@ -635,6 +636,8 @@ def pull_new_helpers(nss: dict[str, _NS], ref_top, ref_funcs, changed: set[str])
                     continue
                 if ref_top.get(B.rel, {}).get(name) == 'def' or name in (ref_funcs.get(B.rel) or []):
                     continue
+                if (B.rel, name) in changed:
+                    continue      # a reference function that moved here (pass M): it goes back, it is not inlined
                 if not prenorm._eligible_helper(node):
                     continue
                 # only worth it where A calls it from a function the reference has
@@ -648,6 +651,7 @@ def pull_new_helpers(nss: dict[str, _NS], ref_top, ref_funcs, changed: set[str])
                 A.refresh()
                 _add_imports(A, add, 1)
                 pulled[(B.rel, name)] = pulled.get((B.rel, name), 0) + 1
+                PULLED.add((A.rel, name))
                 done.append(f'{B.rel}:{name} => {A.rel}')
                 progress = True
         if not progress:
@@ -861,10 +865,21 @@ class _Types:
             for x in ast.walk(t):
                 if isinstance(x, (ast.FunctionDef, ast.AsyncFunctionDef)):
                     defs.setdefault(x.name, []).append(x)
+        for name, ds in list(defs.items()):
+            if len(ds) > 1:
+                dumps = {ast.dump(d) for d in ds}
+                if len(dumps) == 1:
+                    defs[name] = ds[:1]       # the copies pass X made of one helper
         for name, ds in defs.items():
             if len(ds) == 1 and ds[0].returns is not None:
                 ty = self.ann(ds[0].returns)
                 if ty is not None:
+                    self.func_returns[name] = ty
+            elif len(ds) > 1 and all(d.returns is not None for d in ds):
+                # an abstract method and its overrides: one annotation for all
+                tys = {repr(self.ann(d.returns)) for d in ds}
+                ty = self.ann(ds[0].returns)
+                if len(tys) == 1 and ty is not None:
                     self.func_returns[name] = ty
         # functions without annotation whose every return is a constructor call
         for name, ds in defs.items():
@@ -1226,6 +1241,19 @@ def erase_records(nss: dict[str, _NS], ref_ids: set[str], ref_bound: set[str], r
         for n in ast.walk(tree):
             for ch in ast.iter_child_nodes(n):
                 parents[id(ch)] = n
+        # a record that another class declares as the type of a field keeps its identity (pydantic / dataclass
+        # machinery gives the annotation meaning, and the field's mutability is the class's own)
+        for k in ast.walk(tree):
+            if isinstance(k, ast.ClassDef) and k.name not in cands:
+                for st in k.body:
+                    if isinstance(st, ast.AnnAssign):
+                        for y in ast.walk(st.annotation):
+                            if isinstance(y, ast.Name) and y.id in cands:
+                                bad.add(y.id)
+                            elif isinstance(y, ast.Constant) and isinstance(y.value, str):
+                                for c in cands:
+                                    if c in y.value:
+                                        bad.add(c)
         # class name uses
         for x in ast.walk(tree):
             if isinstance(x, ast.Name) and x.id in cands:
@@ -1412,6 +1440,10 @@ def erase_records(nss: dict[str, _NS], ref_ids: set[str], ref_bound: set[str], r
                         bad.add(r)
                         bad.add(f.id)
                     return
+                if isinstance(f, ast.Attribute) and isinstance(f.value, ast.Name) and \
+                        f.value.id in ('logger', 'log', '_logger', '_log', 'LOGGER', 'LOG', 'logging', 'warnings') and \
+                        f.attr in ('debug', 'info', 'warning', 'warn', 'error', 'exception', 'critical', 'log'):
+                    return        # only the text of a diagnostic depends on it
                 if isinstance(f, ast.Name) and f.id in ('len', 'sorted', 'list', 'tuple', 'reversed', 'enumerate', 'zip', 'iter',
                                                         'next', 'min', 'max', 'bool', 'any', 'all', 'set', 'frozenset'):
                     return
@@ -1785,6 +1817,37 @@ def _dissolve_one(nss, ns: _NS, fn, arg, fields: list[str]) -> bool:
             delattr(sub, f)
         sub.id = nm
         sub.ctx = ast.Load()
+    # `L = <new parameter>` at the top level of the body, L bound nowhere else and not a parameter: L is the parameter
+    for _ in range(len(names)):
+        changed = False
+        allstores = [x.id for x in ast.walk(fn) if isinstance(x, ast.Name) and not isinstance(x.ctx, ast.Load)]
+        pnames = {y.arg for y in ast.walk(fn.args) if isinstance(y, ast.arg)} - {p}
+        for st in list(fn.body):
+            pairs = []
+            if isinstance(st, ast.Assign) and len(st.targets) == 1:
+                t, v = st.targets[0], st.value
+                if isinstance(t, ast.Name) and isinstance(v, ast.Name):
+                    pairs = [(t, v)]
+                elif isinstance(t, ast.Tuple) and isinstance(v, ast.Tuple) and len(t.elts) == len(v.elts) and \
+                        all(isinstance(a_, ast.Name) for a_ in t.elts) and all(isinstance(b_, ast.Name) for b_ in v.elts):
+                    pairs = list(zip(t.elts, v.elts))
+            if not pairs or not all(v.id in names and allstores.count(t.id) == 1 and t.id not in pnames and t.id not in names
+                                    and allstores.count(v.id) == 0 for t, v in pairs):
+                continue
+            if len({v.id for _, v in pairs}) != len(pairs) or len({t.id for t, _ in pairs}) != len(pairs):
+                continue
+            mp = {v.id: t.id for t, v in pairs}
+            fn.body.remove(st)
+            for x in ast.walk(fn):
+                if isinstance(x, ast.Name) and x.id in mp:
+                    x.id = mp[x.id]
+            names = [mp.get(nm, nm) for nm in names]
+            changed = True
+            break
+        if not changed:
+            break
+    if not fn.body:
+        fn.body.append(ast.copy_location(ast.Pass(), fn))
     new_args = [ast.copy_location(ast.arg(arg=nm, annotation=None), arg) for nm in names]
     if kwonly:
         i = a.kwonlyargs.index(arg)
@@ -1812,6 +1875,7 @@ def apply(files, R: dict, moved: dict | None = None) -> dict:
     """files: [(rel, modname, tree, src)]; called by globalnorm.apply after the rename pass"""
     global ERASED, RETURNS, INFO
     ERASED, RETURNS = {}, {}
+    PULLED.clear()
     info = {}
     nss = {rel: _NS(rel, mod, tree) for rel, mod, tree, _ in files}
     _BY_MOD.clear()
@@ -1827,7 +1891,13 @@ def apply(files, R: dict, moved: dict | None = None) -> dict:
             info['methods_back'] = restore_moved_methods(nss, moved, R)
             info['functions_back'] = restore_methodised_functions(nss, moved)
         info['bases_flattened'] = flatten_new_bases(nss, ref_top, ref_bound)
-        info['pulled'] = pull_new_helpers(nss, ref_top, ref_funcs, set())
+        keep = {(rb, qb) for (_, _), (rb, qb) in (moved or {}).items()}
+        info['pulled'] = pull_new_helpers(nss, ref_top, ref_funcs, keep)
+        if moved:
+            # a moved function that only a pulled helper refers to is imported into the file now
+            again = restore_moved_methods(nss, moved, R) + restore_moved_definitions(nss, ref_top, moved)
+            if again:
+                info['moved_back_after_pull'] = again
     done, _ = erase_records(nss, ref_ids, ref_bound, set(R['__attrs__']) if '__attrs__' in R else None)
     if done:
         ERASED = done
